@@ -435,6 +435,10 @@ def descriptor_cases(out, ck):
 
 
 def run(tier, seed, out, drv, facts):
+    import warnings
+
+    # known finding F4 leaves un-awaited coroutines behind (the wrapper checks the coroutine object): not our noise
+    warnings.filterwarnings("ignore", category=RuntimeWarning, message="coroutine .* was never awaited")
     rng = Rng(seed, "C07")
     thorough = tier == "thorough"
     n = 30000 if thorough else 250
